@@ -146,6 +146,7 @@ def run(ctx):
                         'it first - a log line that joins it - leaves nothing for the listing, so the lookup returns no recordings' % (
                             nm_, prod_.qualname, m_.qualname, len(reads_), ', '.join(str(r.lineno) for r in reads_))))
     common.import_clauses(ctx, res, 'C10', ['C10.a'], 'C16', 'C16.h', 'R-SIBLING', 'S3 listing prefixes are the category followed by the id delimiter (and a day folder)', floor=2)
+    common.import_clauses(ctx, res, 'C15', ['C15.e'], 'C16', 'C16.j', 'R-ORDER', 'what a window lookup lists can be fetched: the listed object is written after the full object', floor=1)
     try:
         _run_rest(ctx, res)
     except AnalysisError as ex:
@@ -211,10 +212,51 @@ def _run_rest(ctx, res):
                         k.arg == 'days' and isinstance(k.value, ast.Name) and k.value.id == g.target.id for k in td.keywords)
                     if isinstance(base, tuple) and base[1] == 'start' and is_td:
                         found = (n, g.iter.args[0])
+    cursor_form = None
+    if found is None:
+        # the same written with a cursor: `day = <start>; while day <= <end>: ...; day += timedelta(days=1)`
+        import copy as _copy
+        for w in [x for x in walk_own(enum.node) if isinstance(x, ast.While) and isinstance(x.test, ast.Compare) and len(x.test.ops) == 1]:
+            steps = [x for x in ast.walk(w) if (isinstance(x, ast.AugAssign) and isinstance(x.op, ast.Add) and isinstance(x.target, ast.Name) and
+                                                 norm(x.value).replace(' ', '') in ('timedelta(days=1)', 'datetime.timedelta(days=1)', 'timedelta(1)')) or
+                     (isinstance(x, ast.Assign) and isinstance(x.targets[0], ast.Name) and isinstance(x.value, ast.BinOp) and isinstance(x.value.op, ast.Add) and
+                      isinstance(x.value.left, ast.Name) and x.value.left.id == x.targets[0].id and
+                      norm(x.value.right).replace(' ', '') in ('timedelta(days=1)', 'datetime.timedelta(days=1)', 'timedelta(1)'))]
+            if len(steps) != 1:
+                continue
+            cur = steps[0].target.id if isinstance(steps[0], ast.AugAssign) else steps[0].targets[0].id
+            inits = [x for x in walk_own(enum.node) if isinstance(x, ast.Assign) and len(x.targets) == 1 and isinstance(x.targets[0], ast.Name) and
+                     x.targets[0].id == cur and x is not steps[0] and x.lineno < w.lineno]
+            if len(inits) != 1:
+                continue
+
+            class _Sub(ast.NodeTransformer):
+                def visit_Name(self_, n):
+                    return _copy.deepcopy(inits[0].value) if n.id == cur else n
+            lhs, rhs, op = w.test.left, w.test.comparators[0], w.test.ops[0]
+            if any(isinstance(x, ast.Name) and x.id == cur for x in ast.walk(rhs)):
+                lhs, rhs = rhs, lhs
+                op = {ast.GtE: ast.LtE, ast.Gt: ast.Lt, ast.LtE: ast.GtE, ast.Lt: ast.Gt}.get(type(op), type(op))()
+            lv, rv_ = da.ev(_Sub().visit(_copy.deepcopy(lhs))), da.ev(rhs)
+            if isinstance(lv, tuple) and isinstance(rv_, tuple) and lv[0] in ('dt', 'date') and rv_[0] in ('dt', 'date') and lv[1] == 'start' and rv_[1] == 'end':
+                cursor_form = (w, lv, rv_, op, rhs)
+    if cursor_form is not None:
+        w, lv, rv_, op, rhs_end = cursor_form
+        ok = isinstance(op, ast.LtE) and lv[0] == 'date'
+        why = 'cursor loop `while %s`: the cursor is start\'s %s advanced by whole days and is compared with end\'s %s' % (
+            norm(w.test), 'calendar day' if lv[0] == 'date' else 'instant (time of day kept)', 'calendar day' if rv_[0] == 'date' else 'instant')
+        if not ok:
+            why += ': when end\'s time of day is earlier than start\'s the cursor passes end before it reaches end\'s calendar day, so the last day folder ' \
+                   'is not listed and recordings saved that day inside the window are missed' if lv[0] == 'dt' else ': end\'s calendar day is not reached for every alignment'
+        ca.instance('day enumeration reaches end\'s calendar day', enum.qualname, ok, detail=why)
+        ca.evaluations += 1
+        if not ok:
+            res.add(Finding('C16', 'C16.a', 'R-ABSINT', enum.file, enum.qualname, w.lineno, norm(w.test), why))
+        found = (w, rhs_end)
     if found is None:
         raise AnalysisError('day-folder enumeration has a shape the day-count interpretation does not model '
                             '(expected `[start + timedelta(days=i) for i in range(N)]`)')
-    if found is not None:
+    if found and cursor_form is None:
         n, count = found
         v = da.ev(count)
         if v == TOP or not (isinstance(v, tuple) and v[0] == 'int'):
@@ -230,9 +272,10 @@ def _run_rest(ctx, res):
             if not ok:
                 why = 'range(%s) may stop at start.day + DELTA%+d: with unknown times of day `(end - start).days` is DELTA-1 or DELTA, ' \
                       'so end\'s calendar day can be missed' % (norm(count), worst)
-    ca.instance('day enumeration reaches end\'s calendar day', enum.qualname, ok, detail=why)
-    ca.evaluations += 1
-    if not ok:
+    if cursor_form is None:
+        ca.instance('day enumeration reaches end\'s calendar day', enum.qualname, ok, detail=why)
+        ca.evaluations += 1
+    if not ok and cursor_form is None:
         res.add(Finding('C16', 'C16.a', 'R-ABSINT', enum.file, enum.qualname, found[0].lineno if found else enum.node.lineno,
                         norm(found[0]) if found else 'day enumeration', why))
     # end defaults to now before the enumeration
